@@ -58,7 +58,15 @@ func (e *ExtensionObject) Decode(b []byte) (int, error) {
 	}
 
 	length := buf.ReadUint32()
-	if length == 0 || length == 0xffffffff || buf.Error() != nil {
+	if length == 0xffffffff || buf.Error() != nil {
+		return buf.Pos(), buf.Error()
+	}
+
+	// an empty body is still a value of its type, e.g. a structure without fields
+	if length == 0 {
+		if e.EncodingMask == ExtensionObjectBinary {
+			e.Value = eotypes.New(e.TypeID.NodeID)
+		}
 		return buf.Pos(), buf.Error()
 	}
 
